@@ -347,6 +347,31 @@ def coq_props(prop_id, extra_files=()):
     return res
 
 
+class _global_slot:
+    """Machine-wide bound on concurrent correspondence coqc processes (memory: ~0.7 GB each),
+    so that several checks running at once cannot exhaust RAM.  VERIF_SLOTS slots, flock based."""
+
+    N = int(os.environ.get("VERIF_SLOTS", "20"))
+
+    def __enter__(self):
+        import fcntl
+
+        while True:
+            for k in range(self.N):
+                f = open(f"/tmp/.verif-slot-{k}", "w")
+                try:
+                    fcntl.flock(f, fcntl.LOCK_EX | fcntl.LOCK_NB)
+                    self.f = f
+                    return self
+                except OSError:
+                    f.close()
+            time.sleep(0.2 + random.random() * 0.3)
+
+    def __exit__(self, *a):
+        self.f.close()
+        return False
+
+
 def _coq_shard(args):
     path, imports, run, pairs = args
     body = [
@@ -365,10 +390,11 @@ def _coq_shard(args):
     with open(path, "w") as f:
         f.write("\n".join(body) + "\n")
     for attempt in range(2):
-        rc, out, dt = run_cmd(
-            ["bash", "-c", f"ulimit -s unlimited 2>/dev/null; exec coqc -Q {COQ} DV -Q {os.path.dirname(path)} Scratch {path}"],
-            timeout=1500,
-        )
+        with _global_slot():
+            rc, out, dt = run_cmd(
+                ["bash", "-c", f"ulimit -s unlimited 2>/dev/null; exec coqc -Q {COQ} DV -Q {os.path.dirname(path)} Scratch {path}"],
+                timeout=1500,
+            )
         if rc == 0:
             break
     if rc != 0:
